@@ -169,14 +169,17 @@ func (c *ChunkBuffer) ChunkedString(level, offset int) string {
 		// prefix operator
 		case Prefix:
 			if next := c.nextChunk(); next != nil {
+				// A prefix operator in front of a group belongs to the whole group, e.g. "!(a && b)"
+				if next.Type == Group && next.buffer == "(" {
+					buf.WriteString(c.chunkString(state, chunk.buffer+c.groupString(state)))
+					continue
+				}
 				buf.WriteString(c.chunkString(state, chunk.buffer+next.buffer))
 			}
 		// group operator
 		case Group:
 			// If group operator, inside expressions should be printed on the same line
-			if next := c.nextChunk(); next != nil {
-				buf.WriteString(c.chunkGroupOperator(state, next))
-			}
+			buf.WriteString(c.chunkString(state, c.groupString(state)))
 		// infix operator
 		case Infix:
 			buf.WriteString(c.chunkString(state, chunk.buffer))
@@ -271,25 +274,45 @@ func (c *ChunkBuffer) chunkLineComment(state *ChunkState, chunk *Chunk) string {
 	return buf.String()
 }
 
-// chunkGroupOperator() returns chunk group expression string
-func (c *ChunkBuffer) chunkGroupOperator(state *ChunkState, chunk *Chunk) string {
-	expr := chunk.buffer
+// groupString() returns the group expression string from the chunk after "(" to the matching ")".
+// Nested groups and prefix operators inside the group are kept together.
+func (c *ChunkBuffer) groupString(state *ChunkState) string {
+	var expr string
+	var depth int
+	glue := true // no white space after "(" and after a prefix operator
 
 	for {
 		next := c.nextChunk()
 		if next == nil {
-			return c.chunkString(state, "("+expr+")")
+			return "(" + expr + ")"
 		}
+		sep := " "
+		if glue {
+			sep = ""
+		}
+		glue = false
 
 		switch {
 		case next.isLineComment():
-			expr += next.buffer
+			expr += sep + next.buffer
 			expr += c.nextLine(state)
 			state.reset()
-		case next.buffer == ")":
-			return c.chunkString(state, "("+expr+")")
+			glue = true
+		case next.Type == Group && next.buffer == "(":
+			depth++
+			expr += sep + "("
+			glue = true
+		case next.Type == Group && next.buffer == ")":
+			if depth == 0 {
+				return "(" + expr + ")"
+			}
+			depth--
+			expr += ")"
+		case next.Type == Prefix:
+			expr += sep + next.buffer
+			glue = true
 		default:
-			expr += " " + next.buffer
+			expr += sep + next.buffer
 		}
 	}
 }
